@@ -316,9 +316,14 @@ class BaseState(ABC):
         assert isinstance(self.state, jnp.ndarray)
         assert self.state.shape == (self.dimensions, self.dimensions)
 
-        # Compute probabilities p(i) = Tr(E_i * rho) for each POVM operator E_i
+        # Compute probabilities p(i) = Tr(M_i rho M_i^dagger) for each operator M_i
         probabilities = jnp.array(
-            [jnp.trace(jnp.matmul(op, self.state)).real for op in operators]
+            [
+                jnp.trace(
+                    jnp.matmul(op, jnp.matmul(self.state, jnp.conj(op.T)))
+                ).real
+                for op in operators
+            ]
         )
 
         # Normalize probabilities (handle numerical issues)
